@@ -48,12 +48,19 @@ def export_stmt(s, ids):
     if isinstance(s, ast.For):
         if s.orelse:
             raise Unsupported('for-else')
-        ext = None
+        ext = []
         if anno.hasanno(s, anno.Basic.EXTRA_LOOP_TEST):
             e = anno.getanno(s, anno.Basic.EXTRA_LOOP_TEST)
-            if not (isinstance(e, ast.UnaryOp) and isinstance(e.op, ast.Not) and isinstance(e.operand, ast.Name)):
-                raise Unsupported('extra loop test ' + safe_unparse(e))
-            ext = e.operand.id
+            # `not f`, or `not f and (not g)`: the loop goes on while no flag is set
+            parts = [e]
+            while parts:
+                x = parts.pop(0)
+                if isinstance(x, ast.BoolOp) and isinstance(x.op, ast.And):
+                    parts = list(x.values) + parts
+                elif isinstance(x, ast.UnaryOp) and isinstance(x.op, ast.Not) and isinstance(x.operand, ast.Name):
+                    ext.append(x.operand.id)
+                else:
+                    raise Unsupported('extra loop test ' + safe_unparse(e))
         tg = sorted({n.id for n in ast.walk(s.target) if isinstance(n, ast.Name)})
         if any(not isinstance(n, (ast.Name, ast.Tuple, ast.List, ast.Store, ast.Load)) for n in ast.walk(s.target)):
             raise Unsupported('for target')
@@ -63,6 +70,16 @@ def export_stmt(s, ids):
         if any(q.is_composite() for q in sc.modified):
             raise Unsupported('composite store')
         return ('atom', sid, li, _names(sc.read), _names(sc.modified), safe_unparse(s))
+    if isinstance(s, ast.With):
+        if len(s.items) != 1:
+            raise Unsupported('with: several items')
+        ov = s.items[0].optional_vars
+        if ov is not None and any(not isinstance(n, (ast.Name, ast.Tuple, ast.List, ast.Store, ast.Load)) for n in ast.walk(ov)):
+            raise Unsupported('with ... as <composite target>')
+        tg = sorted({n.id for n in ast.walk(ov) if isinstance(n, ast.Name)}) if ov is not None else []
+        return ('with', sid, li, tg, _names(_scope(s.items[0].context_expr).read) if anno.hasanno(s.items[0].context_expr, anno.Static.SCOPE)
+                else sorted({n.id for n in ast.walk(s.items[0].context_expr) if isinstance(n, ast.Name)}),
+                [export_stmt(x, ids) for x in s.body])
     if isinstance(s, ast.Raise):
         if s.exc is None:
             raise Unsupported('bare raise')
@@ -177,6 +194,8 @@ def to_coq(tree, L):
             return 'AAtom %d %s %s' % (st[1], vs(st[3]), vs(st[4]))
         if st[0] == 'raise':
             return 'ARaise %d %s' % (st[1], vs(st[3]))
+        if st[0] == 'with':
+            return 'AWith %d %s %s (%s)' % (st[1], vs(st[4]), vs(st[3]), blk(st[5]))
         if st[0] == 'try':
             hs = 'AHNil'
             for h in reversed(st[4]):
@@ -191,7 +210,7 @@ def to_coq(tree, L):
         if st[0] == 'while':
             return 'AWhile %d %s %s (%s)' % (st[1], vs(st[3]), vs(_fn_locals(Lm, 'loop_body')), blk(st[4]))
         if st[0] == 'for':
-            return 'AFor %d %s %s %s %s (%s)' % (st[1], vs(st[3]), vs(st[4]), 'None' if st[6] is None else '(Some %d)' % v(st[6]),
+            return 'AFor %d %s %s %s %s (%s)' % (st[1], vs(st[3]), vs(st[4]), vs(st[6]),
                                                  vs(_fn_locals(Lm, 'loop_body')), blk(st[5]))
         raise Unsupported(st[0])
     return blk(tree), table
